@@ -101,7 +101,7 @@ fn status_str(s: u8) -> &'static str {
     }
 }
 
-fn set_contract_info(st: &mut MemStorage, name: &str, version: &str) {
+pub fn set_contract_info(st: &mut MemStorage, name: &str, version: &str) {
     st.data.insert(b"contract_info".to_vec(), serde_json::to_vec(&json!({"contract": name, "version": version})).unwrap());
 }
 
@@ -113,7 +113,9 @@ fn strip_ns(st: &mut MemStorage, ns: &str) {
 }
 
 fn diff_namespaces(a: &MemStorage, b: &MemStorage) -> Vec<String> {
-    let mut v: Vec<String> = a.diff_keys(b).iter().map(|k| key_namespace(k)).collect();
+    // namespaces the pinned code does not have are additional bookkeeping ("all other stored data untouched" is
+    // about the data that exists)
+    let mut v: Vec<String> = a.diff_keys(b).iter().map(|k| key_namespace(k)).filter(|n| crate::store::known_namespace(n)).collect();
     v.sort();
     v.dedup();
     v
@@ -373,6 +375,9 @@ pub fn check_mig_case(c: &MigCase, agg: &mut Agg) -> Result<(), String> {
 pub struct TGate {
     pub name: u8,
     pub version: u8,
+    /// state the store is in when migrated: bit 0 = an ownership nomination is pending, bit 1 = routes and a trader are configured
+    #[serde(default)]
+    pub state: u8,
 }
 
 const TVERSIONS: [(&str, i8); 9] = [("0.4.19", -1), ("0.4.20", 0), ("0.4.21", 1), ("0.3.99", -1), ("1.0.0", 1), ("0.4.20-rc1", -1), ("garbage", 2), ("", 2), ("0.4", 2)];
@@ -384,10 +389,19 @@ pub fn check_tgate(c: &TGate, agg: &mut Agg) -> Result<(), String> {
     let (version, ord) = TVERSIONS[c.version as usize % TVERSIONS.len()];
     let admin = bech32_encode("osmo", &sha256(b"t-admin")[..20]);
     let mut tb = crate::props_treasury::TreasuryBox::new(&admin, treasury::msg::InstantiateMsg { admin: None, trader: None, allowed_swap_routes: vec![] })?;
+    if c.state & 1 != 0 {
+        let nominee = bech32_encode("osmo", &sha256(b"t-nominee")[..20]);
+        tb.exec(&admin, treasury::msg::ExecuteMsg::TransferOwnership { new_owner: nominee }).map_err(|e| format!("{:?}", e.map(|x| x.to_string())))?;
+    }
+    if c.state & 2 != 0 {
+        let trader = bech32_encode("osmo", &sha256(b"t-trader")[..20]);
+        let route = vec![treasury::state::SwapRoute { pool_id: 7, token_in_denom: "uosmo".into(), token_out_denom: "utia".into() }];
+        tb.exec(&admin, treasury::msg::ExecuteMsg::UpdateConfig { trader: Some(trader), allowed_swap_routes: Some(vec![route]) }).map_err(|e| format!("{:?}", e.map(|x| x.to_string())))?;
+    }
     set_contract_info(&mut tb.storage, name, version);
     let before = tb.storage.clone();
     let env = Env {
-        block: BlockInfo { height: 1, time: Timestamp::from_seconds(5), chain_id: "x".into() },
+        block: BlockInfo { height: 1, time: Timestamp::from_seconds(tb.time_s + 86_400), chain_id: "x".into() },
         transaction: None,
         contract: ContractInfo { address: Addr::unchecked(&tb.contract) },
     };
@@ -421,15 +435,15 @@ pub fn check_tgate(c: &TGate, agg: &mut Agg) -> Result<(), String> {
         }
     }
     agg.evaluations += 1;
-    agg.nontrivial.insert(1000 + (c.name % 3) as u64 * 100 + (c.version as u64 % TVERSIONS.len() as u64));
+    agg.nontrivial.insert(1000 + (c.state as u64 % 4) * 1000 + (c.name % 3) as u64 * 100 + (c.version as u64 % TVERSIONS.len() as u64));
     Ok(())
 }
 
 pub fn check_c18(cases: u64, seed: u64) -> RunOutput {
     let mut out = drive(mig_case, cases, seed, 18, |c: &MigCase, agg: &mut Agg| check_mig_case(c, agg));
     let t = drive(
-        || (0u8..3, 0u8..9).prop_map(|(name, version)| TGate { name, version }),
-        64,
+        || (0u8..3, 0u8..9, 0u8..4).prop_map(|(name, version, state)| TGate { name, version, state }),
+        160,
         seed,
         181,
         |c: &TGate, agg: &mut Agg| check_tgate(c, agg),
